@@ -9,6 +9,7 @@ import (
 	"time"
 
 	"github.com/inbucket/inbucket/v3/pkg/config"
+	"github.com/inbucket/inbucket/v3/pkg/policy"
 	"github.com/inbucket/inbucket/v3/pkg/storage"
 	"github.com/rs/zerolog/log"
 )
@@ -22,10 +23,24 @@ type Server struct {
 	notify    chan error      // Notify on fatal error.
 	tlsConfig *tls.Config     // TLS encryption configuration.
 	tlsState  *tls.ConnectionState
+
+	addrPolicy *policy.Addressing // Mailbox naming policy for login names, optional.
+}
+
+// Option customizes a Server created by NewServer.
+type Option func(*Server)
+
+// WithAddressPolicy makes sessions translate the login name (a mailbox name or a full address,
+// in any letter case, with or without a +extension) into the canonical mailbox name, the same
+// way the SMTP and HTTP interfaces do.  Without it the login name is used verbatim.
+func WithAddressPolicy(apolicy *policy.Addressing) Option {
+	return func(s *Server) {
+		s.addrPolicy = apolicy
+	}
 }
 
 // NewServer creates a new, unstarted, POP3 server.
-func NewServer(pop3Config config.POP3, store storage.Store) (*Server, error) {
+func NewServer(pop3Config config.POP3, store storage.Store, opts ...Option) (*Server, error) {
 	slog := log.With().Str("module", "pop3").Str("phase", "tls").Logger()
 	tlsConfig := &tls.Config{}
 	if pop3Config.TLSEnabled {
@@ -41,13 +56,17 @@ func NewServer(pop3Config config.POP3, store storage.Store) (*Server, error) {
 	} else {
 		tlsConfig = nil
 	}
-	return &Server{
+	s := &Server{
 		config:    pop3Config,
 		store:     store,
 		wg:        new(sync.WaitGroup),
 		notify:    make(chan error, 1),
 		tlsConfig: tlsConfig,
-	}, nil
+	}
+	for _, opt := range opts {
+		opt(s)
+	}
+	return s, nil
 }
 
 // Start the server and listen for connections
